@@ -1,5 +1,6 @@
 import MtailVerif.Proofs.Reload
 import MtailVerif.Proofs.Skeletons
+import MtailVerif.Proofs.DispatchRace
 /-! # C20 — lines reach each program in order, exactly once, across reloads
 
     Partial by nature: the theorems quantify over every schedule of the transition system of
@@ -71,6 +72,23 @@ theorem source_shape :
 /-- non-vacuity: a schedule with a reload in the middle of a line reaches a quiescent state -/
 example : (run true {} [.beginSwap, .endSwap, .take 1, .hand, .beginSwap, .take 2, .finish 1, .endSwap, .hand,
     .finish 2]).map (fun s => (s.applied, s.started)) = some ([1, 2], [(1, 1), (2, 2)]) := by decide
+
+/-! ### the dispatcher's lock (Model/DispatchRace.lean) -/
+/-- Obligation over a regenerated fact, and what it is for: `runtime.New`'s dispatcher holds the
+    handle table's read lock from reading a program's channel to the end of the send (the fact),
+    and under that discipline no schedule of the dispatcher's and any number of loaders' steps
+    sends a line on a closed channel, or to a generation other than the installed one. -/
+theorem dispatcher_sends_under_lock :
+    Generated.Reload.fanoutHoldsReadLockAcrossSends = true ∧
+      (∀ as : List DispatchRace.Act, (DispatchRace.run true {} as).bad = false) ∧
+      (∀ as : List DispatchRace.Act, ∀ g ∈ (DispatchRace.run true {} as).sent, g ≤ (DispatchRace.run true {} as).gen) :=
+  ⟨by decide, DispatchRace.send_under_lock_never_on_closed, DispatchRace.send_under_lock_to_installed⟩
+
+/-- a dispatcher that copies the channels under the lock and sends after releasing it: the loader
+    gets in between and the line goes to a closed channel (a panic that ends the process) -/
+theorem sending_after_unlock_is_unsafe :
+    (DispatchRace.run false {} [.dLock, .dSnap, .dUnlock, .lLock, .lSwap, .lUnlock, .dSend]).bad = true :=
+  DispatchRace.send_after_unlock_hits_closed
 
 /-! ### regenerated control skeletons (written by lib/wire_skeletons.py) -/
 /-- Obligations over regenerated facts: the functions this property's model stands for have the
